@@ -86,6 +86,13 @@ fn string_programs() -> Vec<String> {
             v.push(format!("print(\"{}\")", s));
         }
     }
+    // one method whose code is far longer than any plausible internal block size
+    for n in [40usize, 130] {
+        let body: String = (0..n).map(|i| format!("print(\"row ~ of ~\\n\", {}, {})", i, n)).collect::<Vec<_>>().join("; ");
+        v.push(body.clone());
+        v.push(format!("function long(a) -> begin {} end; long(1)", body));
+        v.push(format!("let o = object begin function long(a) -> begin {} end end; o.long(1)", body));
+    }
     v
 }
 
